@@ -65,6 +65,15 @@ CHECKS = [
            'get the same two-sided treatment.',
       note='Long formats are covered to edit distance 1 around seeds, not over all strings; candidate alphabets are mostly ASCII. numa '
            '(no pattern) is decided only for canonical decimals. Exact size limits are left unspecified (limit-1 / limit+1 are decided).'),
+ dict(property_id='C12', engine='E2-enum', level='exploration',
+      technique='model checking: exhaustive enumeration of delegation sets and pool families on the real encoders and regrouping code',
+      text='Every non-empty subset of three delegation ids with every per-id format (single, definition/reference of two pools) and four '
+           'detail values, for both types (6748 sets), is encoded, decoded, compared field-wise and re-encoded, and every documented guard '
+           'is probed. Every family of 1-2 pools (thorough: 3) over four nodes (defining node x non-empty reference set x delegation id, '
+           '6384 families) is turned into per-node delegations, carried through text and through graph properties of a small ARM graph '
+           '(annotate_delegations_and_pools / get_delegations), regrouped with incorporate_delegation and compared with the original; '
+           'placement of definitions and references is checked directly; unrepresentable families must be rejected loudly.',
+      note='Bounded to 3 ids / 4 nodes / 2-3 pools and four detail values per type; empty details are outside the domain.'),
 ]
 _claimed = {c['property_id'] for c in CHECKS}
 NOT_APPLICABLE = [dict(property_id=p, reason='check not built yet in this revision (work in progress; model checking applies, see DESIGN.md)')
